@@ -129,8 +129,10 @@ def _classify_save_stmt(st, state):
     if _is_logger_call(st):
         return None
     if isinstance(st, ast.Assign):
-        if all(c in PURE_CALLS for c in _calls(st.value)) and all(isinstance(t, ast.Name) for t in st.targets):
-            if _calls(st.value) == ["os.path.isfile"]:
+        def plain(t):       # a local name, or a tuple of local names (unpacking the result of a pure call)
+            return isinstance(t, ast.Name) or (isinstance(t, ast.Tuple) and all(isinstance(e, ast.Name) for e in t.elts))
+        if all(c in PURE_CALLS for c in _calls(st.value)) and all(plain(t) for t in st.targets):
+            if _calls(st.value) == ["os.path.isfile"] and isinstance(st.targets[0], ast.Name):
                 state["exists_var"] = st.targets[0].id
             return None
         _fail(where, st)
